@@ -68,7 +68,7 @@ theorem RecOk.la {n : Nat} {r : LockRec} (h : RecOk c n r) (t : Nat) : RecOk c n
 theorem InvX.shrink_xh {xb xt xh xh'} {s : St M} (h : InvX o c xb xt xh s)
     (hsub : ∀ p ∈ xh', p ∈ xh) (hgone : ∀ p ∈ xh, p ∉ xh' → ¬ held o s p.1 p.2) :
     InvX o c xb xt xh' s := by
-  refine ⟨h.recs, h.qsize, h.timer, h.bh, h.u1, h.u2, ?_, ?_, ?_, h.fs⟩
+  refine ⟨h.tu, h.recs, h.qsize, h.timer, h.bh, h.u1, h.u2, ?_, ?_, ?_, h.fs⟩
   · intro hnc n r k hg hk
     rcases h.hb hnc n r k hg hk with hb' | hx
     · exact Or.inl hb'
@@ -90,7 +90,7 @@ theorem InvX.delSession {s : St M} (h : Inv' o c s) {sid : Sid} {hs : List Hold}
     (hg : AMap.get s.sessions sid = some hs) :
     InvX o c none none (hs.map pairOf) (save { s with sessions := AMap.del s.sessions sid }) := by
   have hbk := booked_delSession s sid
-  refine ⟨h.recs, h.qsize, h.timer, ?_, ?_, ?_, ?_, ?_, ?_, ?_⟩
+  refine ⟨h.tu, h.recs, h.qsize, h.timer, ?_, ?_, ?_, ?_, ?_, ?_, ?_⟩
   · intro sid' x hb'; rw [hbk] at hb'; exact h.bh sid' x hb'.2
   · intro a b x y h1 h2; rw [hbk] at h1 h2; exact h.u1 a b x y h1.2 h2.2
   · intro sid' hs' hg'
@@ -128,7 +128,7 @@ theorem InvX.connect {xb xt xh} {s : St M} (h : InvX o c xb xt xh s) (sid : Sid)
     by_cases e : sid = sid'
     · subst e; simp [hg]
     · simp [e]
-  refine ⟨h.recs, h.qsize, h.timer, ?_, ?_, ?_, ?_, ?_, h.xhheld, ?_⟩
+  refine ⟨h.tu, h.recs, h.qsize, h.timer, ?_, ?_, ?_, ?_, ?_, h.xhheld, ?_⟩
   · intro sid' x hb'; rw [hbk] at hb'; exact h.bh sid' x hb'
   · intro a b x y h1 h2; rw [hbk] at h1 h2; exact h.u1 a b x y h1 h2
   · intro sid' hs' hg'
@@ -169,7 +169,7 @@ theorem InvX.gc (ho : o.Lawful) {xb xt xh} {s : St M} (h : InvX o c xb xt xh s) 
     constructor
     · rintro ⟨r, hg, hk⟩; exact ⟨r, hget n r hg, hk⟩
     · rintro ⟨r, hg, hk⟩; exact ⟨r, hkeep n r k hg hk, hk⟩
-  refine ⟨?_, ?_, ?_, ?_, h.u1, h.u2, ?_, h.xhfree, ?_, h.fs⟩
+  refine ⟨h.tu, ?_, ?_, ?_, ?_, h.u1, h.u2, ?_, h.xhfree, ?_, h.fs⟩
   · intro n r hg; exact h.recs n r (hget n r hg)
   · intro n r hg; exact h.qsize n r (hget n r hg)
   · intro tk tm hm; rw [hheld']; exact h.timer tk tm hm
@@ -494,7 +494,7 @@ theorem block_renew (s : St M) (n k : Str) (t : Int) (h : Inv' o c s) : Inv' o c
     · rename_i tm hg
       have hm := AMap.get_some_mem _ _ _ hg
       obtain ⟨e, hh⟩ := h.timer _ _ hm
-      refine ⟨h.recs, h.qsize, ?_, h.bh, h.u1, h.u2, h.hb, h.xhfree, h.xhheld, h.fs⟩
+      refine ⟨AMap.uniq_set _ _ _ h.tu, h.recs, h.qsize, ?_, h.bh, h.u1, h.u2, h.hb, h.xhfree, h.xhheld, h.fs⟩
       intro tk' tm' hm'
       rcases mem_set hm' with hx | hx
       · cases hx; exact ⟨e, hh⟩
